@@ -225,29 +225,29 @@ func (p *StubPeer) PeerState() *consensus.PeerState {
 // Env is one victim node with all its reactors on a real switch, inside a live
 // simulated network of four validators.
 type Env struct {
-	Mode    string // "caughtup": victim is validator 0 taking part in consensus; "syncing": victim is a fresh observer in fast-sync mode
-	Net     *netsim.Net
-	V       *netsim.Node
-	Adv     *netsim.Adversary
-	AdvIdx  int // validator whose key the attacker holds
-	SW      *p2p.Switch
-	Cons    *consensus.ConsensusManager
-	BC      *blockchain.BlockchainReactor
-	TxR     *tx_pool.Reactor
-	EvR     *evidence.Reactor
-	Pex     *pex.Reactor
-	Book    pex.AddrBook
-	Dir     string
-	reactors []p2p.Reactor
-	names    []string
-	byCh     map[byte]p2p.Reactor
-	nameByCh map[byte]string
-	capByCh  map[byte]int // RecvMessageCapacity: the connection layer never delivers a longer message
-	DeadWhy  string
-	Anchor   *StubPeer
-	SeedMode bool
+	Mode      string // "caughtup": victim is validator 0 taking part in consensus; "syncing": victim is a fresh observer in fast-sync mode
+	Net       *netsim.Net
+	V         *netsim.Node
+	Adv       *netsim.Adversary
+	AdvIdx    int // validator whose key the attacker holds
+	SW        *p2p.Switch
+	Cons      *consensus.ConsensusManager
+	BC        *blockchain.BlockchainReactor
+	TxR       *tx_pool.Reactor
+	EvR       *evidence.Reactor
+	Pex       *pex.Reactor
+	Book      pex.AddrBook
+	Dir       string
+	reactors  []p2p.Reactor
+	names     []string
+	byCh      map[byte]p2p.Reactor
+	nameByCh  map[byte]string
+	capByCh   map[byte]int // RecvMessageCapacity: the connection layer never delivers a longer message
+	DeadWhy   string
+	Anchor    *StubPeer
+	SeedMode  bool
 	Abandoned bool // a violation left goroutines of this environment blocked: do not pull its files from under them
-	queued   int // messages put on the consensus queue while nobody drains it (syncing)
+	queued    int  // messages put on the consensus queue while nobody drains it (syncing)
 }
 
 const gossipSleep = time.Millisecond
